@@ -30,7 +30,7 @@ from ..world import rmtree, scratch_root
 ID = "C11"
 LEVEL = "fault_enumeration"
 RULE = (
-    "Hypothesis-generated histories of 3-7 steps (APPEND with flags, STORE on generated sets, EXPUNGE, UID EXPUNGE, COPY, MOVE, "
+    "Hypothesis-generated histories of 3-8 steps (APPEND with flags, STORE on generated sets, body FETCH without PEEK, EXPUNGE, UID EXPUNGE, COPY, MOVE, "
     "CREATE, DELETE, RENAME incl. a subtree, SUBSCRIBE, pack with a lowered limit) over mailboxes inbox/mb/mb/sub, plus two "
     "special kinds: first start-up on an empty directory and start-up on a database left at schema version k (k = 0..6, built by "
     "running the first k migrations). For every history EVERY crash point is enumerated: a counting dry run numbers each durable "
@@ -39,14 +39,15 @@ RULE = (
     "LIST works and every selectable mailbox can be selected; with j = number of commands acknowledged before the crash, every "
     "mailbox state lies 'between' snapshot S_j-1 and S_j of the dry run (messages and flags untouched by the in-flight command "
     "are exactly as acknowledged; its own effects may be absent, partial or complete); every (mailbox, UIDVALIDITY, UID) that "
-    "was revealed to the client still names the same message; UIDNEXT is above every revealed UID. Non-trivial = a crash point "
+    "was revealed to the client still names the same message; UIDNEXT is above every revealed UID; the recovered server is stopped and started once more and must show the same uid->message pairs; "
+    "independently of the snapshots, the flags the server reported in the untagged FETCH responses of a STORE / body FETCH must be the flags of that message in the copy taken right after the acknowledgement (C11.flags.told). Non-trivial = a crash point "
     "strictly inside a mutating command (between two of its effects) or inside start-up/migration; distinct = distinct "
     "(history hash, k). Crash points inside the pack of a folder are not enumerated while the known finding pack-not-crash-safe is open (counted under excluded_by_known_finding; its replay runs them)."
 )
 ASSUMPTIONS = [
     "a crash is a process kill between Python-visible effects; torn writes inside one write(2), power loss and fsync ordering are not modelled",
     "the dry run and the crash runs are the same deterministic execution (virtual time, seeded RNG, inline DB/executor), so effect k is the same effect",
-    "snapshots S_i are read back by starting a server on a copy of the directory after acknowledged command i (relies on orderly-restart transparency, C12)",
+    "snapshots S_i are read back by starting a server on a copy of the directory after acknowledged command i (relies on orderly-restart transparency, C12); a change that no restart ever shows is therefore invisible to the snapshot comparison - for flags the told-flags oracle covers it, for messages the uid/tag reveals taken from acknowledged responses do",
 ]
 OPEN = open_ids(ID)
 NAMES = ["inbox", "mb", "mb/sub", "new1"]
